@@ -1,5 +1,5 @@
 """C16 - layout is meaning-neutral."""
-from . import line_rules as lr, matcher_rules as mr, parser_rules as pr, builder_rules as br
+from . import line_rules as lr, matcher_rules as mr, parser_rules as pr, builder_rules as br, error_rules as er
 
 META = {
     "level": "other",
@@ -25,4 +25,8 @@ def run(rep):
     lr.rule_tags(rep, "C16.tags")
     lr.rule_split_init(rep, "C16.cells")
     pr.rule_grammar(rep, "C16.skip")
+    pr.rule_look(rep, "C16.look")
+    pr.rule_queue(rep, "C16.queue")
+    er.rule_messages(rep, "C16.errors")
+    br.rule_desc(rep, "C16.desc")
     br.rule_fields(rep, "C16.fields")
